@@ -82,15 +82,59 @@ def skip_parens(tokens, i):
     return None
 
 
+MODIFIERS = {'public', 'private', 'protected', 'static', 'final', 'abstract', 'default', 'def', 'open', 'override'}
+
+
+def group_names(tokens, i, open_, close):
+    """tokens[i] == open_: names declared at depth 1 of the group (first identifier after the
+    opening bracket or a depth-1 comma, skipping variance markers); -> (names, index after group)"""
+    names = []
+    depth = 0
+    j = i
+    expect = False
+    while j < len(tokens):
+        k, v = tokens[j]
+        if k == 'op' and v == open_:
+            depth += 1
+            if depth == 1:
+                expect = True
+        elif k == 'op' and v == close:
+            depth -= 1
+            if depth == 0:
+                return names, j + 1
+        elif k == 'op' and v == ',' and depth == 1:
+            expect = True
+        elif k == 'op' and v in '{};':
+            return names, None
+        elif expect and depth == 1:
+            if k == 'id' and v in ('in', 'out'):
+                pass                      # variance marker
+            elif k == 'id':
+                names.append(v)
+                expect = False
+            elif k == 'op' and v in '+-':
+                pass
+            else:
+                expect = False
+        j += 1
+    return names, None
+
+
 def scan(lang, text, generic_classes):
     """-> dict of Counters: classes, var_typed, var_untyped, fun_typed, fun_untyped, new_inferred, strings"""
     t = tokenize(text)
     inv = {k: Counter() for k in ('classes', 'var_typed', 'var_untyped', 'fun_typed', 'fun_untyped',
-                                  'new_inferred', 'new_explicit', 'strings')}
+                                  'new_inferred', 'new_explicit', 'strings', 'class_tparams', 'fun_tparams')}
     inv['balance'] = balance(t)
     n = len(t)
     TA_OPEN, TA_CLOSE = ('[', ']') if lang == 'scala' else ('<', '>')
     for i, (k, v) in enumerate(t):
+        if lang in ('java', 'groovy') and k == 'op' and v == '<' and i > 0 and t[i - 1] in (
+                ('op', '{'), ('op', '}'), ('op', ';')):
+            names, _ = group_names(t, i, '<', '>')
+            for nm in names:
+                inv['fun_tparams'][nm] += 1
+            continue
         if k == 'str':
             inv['strings'][v[1:-1]] += 1
             continue
@@ -100,6 +144,15 @@ def scan(lang, text, generic_classes):
         prev = t[i - 1] if i > 0 else ('', '')
         if v in ('class', 'interface', 'trait') and nxt[0] == 'id' and prev != ('op', '.') and prev != ('op', ':'):
             inv['classes'][nxt[1]] += 1
+            if i + 2 < n and t[i + 2] == ('op', TA_OPEN):
+                names, _ = group_names(t, i + 2, TA_OPEN, TA_CLOSE)
+                for nm in names:
+                    inv['class_tparams'][(nxt[1], nm)] += 1
+            continue
+        if lang in ('java', 'groovy') and v in MODIFIERS and nxt == ('op', '<'):
+            names, _ = group_names(t, i + 1, '<', '>')
+            for nm in names:
+                inv['fun_tparams'][nm] += 1
             continue
         if lang in ('kotlin', 'scala') and v in ('val', 'var') and nxt[0] == 'id':
             after = t[i + 2] if i + 2 < n else ('', '')
@@ -116,6 +169,9 @@ def scan(lang, text, generic_classes):
         if (lang == 'kotlin' and v == 'fun') or (lang == 'scala' and v == 'def'):
             j = i + 1
             if lang == 'kotlin' and j < n and t[j] == ('op', '<'):
+                names, _ = group_names(t, j, '<', '>')
+                for nm in names:
+                    inv['fun_tparams'][nm] += 1
                 j = skip_angle(t, j)
                 if j is None:
                     continue
@@ -124,6 +180,9 @@ def scan(lang, text, generic_classes):
             name = t[j][1]
             j += 1
             if lang == 'scala' and j < n and t[j] == ('op', '['):
+                names, _ = group_names(t, j, '[', ']')
+                for nm in names:
+                    inv['fun_tparams'][nm] += 1
                 j = skip_angle(t, j, '[', ']')
                 if j is None:
                     continue
@@ -160,7 +219,8 @@ def ir_inventory(program):
     from src.ir import ast, types as tp
     from mc import irwalk
     inv = {k: Counter() for k in ('classes', 'var_typed', 'var_untyped', 'fun_typed', 'fun_untyped', 'fields',
-                                  'new_inferred', 'new_explicit', 'strings', 'toplevel_vars')}
+                                  'new_inferred', 'new_explicit', 'strings', 'toplevel_vars', 'class_tparams',
+                                  'fun_tparams')}
     generic = set()
     decls = program.context.get_declarations(('global',), only_current=True)
     for d in decls.values():
@@ -171,10 +231,14 @@ def ir_inventory(program):
             inv['classes'][o.name] += 1
             if o.type_parameters:
                 generic.add(o.name)
+            for tpar in o.type_parameters or []:
+                inv['class_tparams'][(o.name, tpar.name)] += 1
             for f in o.fields:
                 inv['fields'][f.name] += 1
         elif isinstance(o, ast.FunctionDeclaration):
             (inv['fun_typed'] if o.ret_type is not None else inv['fun_untyped'])[o.name] += 1
+            for tpar in o.type_parameters or []:
+                inv['fun_tparams'][tpar.name] += 1
         elif isinstance(o, ast.VariableDeclaration):
             (inv['var_typed'] if o.var_type is not None else inv['var_untyped'])[o.name] += 1
         elif isinstance(o, ast.New):
